@@ -11,4 +11,4 @@ wt=/tmp/try_wt
 if [ -d $wt ]; then git -C $wt checkout -q -- . ; git -C $wt clean -fdq; git -C $wt checkout -q --detach $(git -C /repo rev-parse HEAD); else git -C /repo worktree add -q --detach $wt HEAD; fi
 git -C $wt apply "$patch" || { echo "patch does not apply"; exit 2; }
 [ -x /verif/bin/arkcheck ] || /verif/setup.sh
-for prop in "$@"; do ARK_REPO=$wt /verif/bin/arkcheck -property "$prop" -out /tmp/try_out 2>&1 | grep -E "^\s+ecs/|VIOLATION|UNDECIDED|quick:" | cut -c1-${W:-500} | head -${N:-14}; done
+for prop in "$@"; do ARK_REPO=$wt ${ARKCHECK:-/verif/bin/arkcheck} -property "$prop" -out /tmp/try_out 2>&1 | grep -E "^\s+ecs/|VIOLATION|UNDECIDED|quick:" | cut -c1-${W:-500} | head -${N:-14}; done
